@@ -141,6 +141,7 @@ require (
 	golang.org/x/term v0.43.0 // indirect
 	golang.org/x/text v0.37.0 // indirect
 	golang.org/x/time v0.15.0 // indirect
+	golang.org/x/tools v0.45.0 // indirect
 	google.golang.org/genproto v0.0.0-20260526163538-3dc84a4a5aaa // indirect
 	google.golang.org/genproto/googleapis/api v0.0.0-20260526163538-3dc84a4a5aaa // indirect
 	gopkg.in/evanphx/json-patch.v4 v4.13.0 // indirect
@@ -158,7 +159,4 @@ require (
 
 replace github.com/buildbarn/bb-storage => /repo
 
-require (
-	github.com/buildbarn/bb-storage v0.0.0
-	golang.org/x/tools v0.45.0
-)
+require github.com/buildbarn/bb-storage v0.0.0
